@@ -7,7 +7,13 @@ import "github.com/jmeaster30/vore/libvore/bytecode"
 // VerifStep, when set, is called once per executed search instruction.
 var VerifStep func(pc int, inst bytecode.SearchInstruction, backtrackDepth int, callDepth int, loopDepth int)
 
+// VerifStepPos, when set, is called before VerifStep with the attempt's start offset and the current offset.
+var VerifStepPos func(startOffset int, currentOffset int)
+
 func verifStep(state *SearchEngineState, inst bytecode.SearchInstruction) {
+	if VerifStepPos != nil {
+		VerifStepPos(state.startFileOffset, state.currentFileOffset)
+	}
 	if VerifStep != nil {
 		VerifStep(state.programCounter, inst, int(state.backtrack.Size()), int(state.callStack.Size()), int(state.loopStack.Size()))
 	}
